@@ -14,26 +14,28 @@ EXTRACT_DIRECTIVES = ["ExtrOcamlBasic: bool,option,unit,list,prod,sum,sumbool,su
 # per property: generator families (with weights for the number of histories), the mismatch kinds whose presence is a
 # concrete failing input of THAT property ("hard"), and kinds that only show the tie model<->code is broken ("soft").
 PLAN = {
-    "C01": dict(families=["mix", "names", "delay", "rename"],
-                hard=["MISMATCH out-missing", "MISMATCH decode-count", "MISMATCH reader-stalled", "MISMATCH reader-reader-exited", "MISMATCH stalled",
+    "C01": dict(families=["mix", "names", "delay", "rename", "scen", "fault"],
+                hard=["MISMATCH out-missing", "MISMATCH out-name", "MISMATCH out-op", "MISMATCH decode-count", "MISMATCH reader-stalled", "MISMATCH reader-reader-exited", "MISMATCH stalled",
                       "SPEC C01-delete-self-suppressed-but-parent-never-reported"],
-                soft=["MISMATCH out-op"]),
-    "C02": dict(families=["mix", "fault", "delay"],
+                soft=[]),
+    "C02": dict(families=["mix", "fault", "delay", "scen"],
                 hard=["MISMATCH out-extra", "SPEC C02-empty-op", "SPEC C02-name-not-watched"], soft=[]),
-    "C03": dict(families=["mix", "names", "rename"], hard=["MISMATCH out-order"], soft=[]),
-    "C04": dict(families=["alias", "mix", "delay"],
+    "C03": dict(families=["mix", "names", "rename", "scen"], hard=["MISMATCH out-order"], soft=[]),
+    "C04": dict(families=["alias", "mix", "delay", "scen"],
                 hard=["MISMATCH api-add", "MISMATCH api-remove", "MISMATCH list", "SPEC remove-panics", "SPEC remove-unlisted-not-nonexistent",
-                      "SPEC remove-listed-nonexistent", "SPEC list-duplicate", "SPEC dangling-path-entry"],
+                      "SPEC remove-listed-nonexistent", "SPEC list-duplicate", "SPEC dangling-path-entry",
+                      "KERNEL auto-record-unpredicted", "KERNEL model-queued-more-than-real"],
                 soft=["MISMATCH tpath"]),
-    "C08": dict(families=["names", "mix", "alias"], hard=["MISMATCH out-name", "SPEC C08-nul-in-name"], soft=[]),
-    "C09": dict(families=["delay", "alias"],
+    "C08": dict(families=["names", "mix", "alias", "scen"], hard=["MISMATCH out-name", "SPEC C08-nul-in-name"], soft=[]),
+    "C09": dict(families=["delay", "alias", "scen"],
                 hard=["MISMATCH list", "MISMATCH api-remove", "MISMATCH api-add", "MISMATCH out-extra", "MISMATCH out-missing",
-                      "SPEC C01-delete-self-suppressed-but-parent-never-reported"],
+                      "SPEC C01-delete-self-suppressed-but-parent-never-reported", "KERNEL auto-record-unpredicted",
+                      "KERNEL model-queued-more-than-real"],
                 soft=["MISMATCH tpath", "MISMATCH twd"]),
-    "C10": dict(families=["delay", "mix", "fault"], hard=["MISMATCH out-errors", "SPEC C10-error-on-benign-history"], soft=[]),
-    "C11": dict(families=["rename", "fault"],
+    "C10": dict(families=["delay", "mix", "fault", "scen"], hard=["MISMATCH out-errors", "SPEC C10-error-on-benign-history", "MISMATCH out-missing-after-overflow"], soft=[]),
+    "C11": dict(families=["rename", "fault", "scen"],
                 hard=["MISMATCH out-from", "SPEC C11-lost-partner", "SPEC C11-false-partner", "SPEC C11-ring-overrun"], soft=[]),
-    "C12": dict(families=["alias", "delay", "mix"],
+    "C12": dict(families=["alias", "delay", "mix", "scen"],
                 hard=["SPEC C12-kernel-vs-tables", "SPEC C12-table-sizes", "SPEC dangling-path-entry", "MISMATCH marks",
                       "KERNEL model-queued-more-than-real", "KERNEL auto-record-unpredicted", "KERNEL auto-record-differs"],
                 soft=["MISMATCH twd", "MISMATCH tpath", "MISMATCH twd-flags"]),
@@ -151,7 +153,7 @@ def corpus_scripts(pid):
     return sorted(glob.glob(os.path.join(CORPUS, "*.script")) + glob.glob(os.path.join(CORPUS, "known", "*.script")))
 
 
-def run_ino_property(run, quick_n=24, thorough_n=400, steps=45):
+def run_ino_property(run, quick_n=96, thorough_n=2400, steps=45):
     pid = run.pid
     plan = PLAN[pid]
     files = PROPS_FILES[pid]
@@ -183,7 +185,7 @@ def run_ino_property(run, quick_n=24, thorough_n=400, steps=45):
         jobs.append(("script", sp, "c%d" % i))
     shards = []
     for fam in plan["families"]:
-        k = 4 if run.tier == "quick" else 16
+        k = 8 if run.tier == "quick" else 16
         for j in range(k):
             shards.append((fam, run.seed * 1000 + j * 17 + hash_fam(fam), max(1, nper // k), steps, "%s-%s-%d" % (pid, fam, j)))
     results = []
